@@ -239,6 +239,7 @@ class FlowDomain(Domain):
         self.cut_hangs = set()
         self.hang_frames = set()
         self.hang_by_class = {}
+        self.flag_invariant_used = False
         self.classes_seen = set()
 
     # ---------------------------------------------------------------- helpers
@@ -412,6 +413,9 @@ class FlowDomain(Domain):
             tok = tok - {('FLAGSET',)}
         if fut.kind == 'lock':
             cls = self.f.types[fut.cls]
+            if fut.mode == 'mutex' and cls.get('k') == 'tuple' and not cls.get('a'):
+                # the flush mutex (Mutex<()>): held until the acquiring frame returns
+                tok = tok | {('FLUSHLOCK', fr.body.path)}
             if cls.get('p') == 'std::collections::HashMap':
                 tok = tok - {('F', 'NOTCONSULTED')}
             c = self.SINGLE.get(cls.get('p'))
@@ -1001,6 +1005,8 @@ class FlowDomain(Domain):
     def on_return(self, ip, fr, tok, tags, bi):
         me = short(fr.body.path)
         rt = head(tags.get(0))
+        if ('FLUSHLOCK', fr.body.path) in tok:
+            tok = tok - {('FLUSHLOCK', fr.body.path)}
         if ('FLAGDOWN', fr.body.path) in tok:
             need = sorted(x[1] for x in tok if x[0] == 'NEEDSWEEP')
             if rt == 'ok' or (rt is None and not fr.body.is_coroutine):
@@ -1056,6 +1062,17 @@ class FlowDomain(Domain):
                 val = tag_of_operand(term['args'][1], tags)
                 cls = self.table_in_type(fr.body.locals[1], fr.ctx) if fr.body.argc >= 1 else None
                 tok = self.store_event(ip, fr, tok, bi, fld, val, cls)
+        if fn is not None and fn.endswith('Atomic::<bool>::load') and term['args']:
+            fld = self._stored_field(fr.body, term)
+            if fld == 'need_flush':
+                self._site('flagread', fr, bi, '')
+                clean = tok
+                if any(x[0] == 'FLUSHLOCK' for x in tok):
+                    # invariant decided by C18.1/C18.2: with no flusher running (the flush mutex is ours), a false flag
+                    # means that no metadata is dirty only in RAM
+                    self.flag_invariant_used = True
+                    clean = frozenset(x for x in tok if x[0] != 'RAM')
+                return [(tok, 'T'), (clean, 'F')]
         if fn in ('std::mem::drop', 'core::mem::drop') and term['args'] and term['args'][0]['k'] == 'move':
             l = term['args'][0]['pl']['l']
             tok = frozenset(x for x in tok if not (len(x) > 3 and x[0] == 'F' and x[1] == 'HOLDW' and x[3] == l))
